@@ -349,17 +349,106 @@ theorem updateStatus_rel (p : Proc) (V V' : Nat → View) (i : Nat) (s : PState)
           have := hnorun k w (Infos.get?_eq_of_mem _ _ _ hkeys hk)
           simp [hnil, this]
 
+/-- The synthesis step on its own (used for removals, where no report is stored): whatever the status `q` handed to
+    `updateStatus`, if its entries are the last reports of the views `V'`, the list `updRunning q i s` is duplicate-free, holds
+    exactly the instances `V'` lists, every listed instance has a running-like or STOPPING entry and every running-like entry is
+    listed, then the result is related to `V'` - and nothing raises as long as an entry is left. -/
+theorem synth_rel (q : Proc) (i : Nat) (s : PState) (V' : Nat → View)
+    (hkeys : (q.infos.map (·.1)).Nodup) (hnd : (updRunning q i s).Nodup)
+    (hok : ∀ j ∈ updRunning q i s, ∃ w, q.infos.get? j = some w ∧ (w.state.isRunning = true ∨ w.state = .stopping))
+    (hrl : ∀ j w, q.infos.get? j = some w → w.state.isRunning = true → j ∈ updRunning q i s)
+    (hentries : ∀ k, (q.infos.get? k).map (·.state) = (V' k).last.map (·.1))
+    (hlisted : ∀ k, k ∈ updRunning q i s ↔ (V' k).listed = true)
+    (hne0 : q.infos ≠ []) :
+    (updateStatus q i s).Holds (fun p' => Rel p' V' ∧ p'.infos = q.infos ∧ p'.forced = q.forced) := by
+  unfold updateStatus
+  simp only
+  by_cases hlen : (updRunning q i s).length > 1
+  · -- conflict
+    simp only [hlen, if_true]
+    have hall : (updRunning q i s).all (fun j => (q.infos.get? j).isSome) = true := by
+      rw [List.all_eq_true]; intro j hj; obtain ⟨w, hw, _⟩ := hok j hj; simp [hw]
+    simp only [hall, if_true, Res.holds_ok]
+    refine ⟨?_, by first | rfl | trivial, by first | rfl | trivial⟩
+    have hne : ∃ j, j ∈ updRunning q i s := by
+      cases h : updRunning q i s with
+      | nil => simp [h] at hlen
+      | cons a t => exact ⟨a, by simp⟩
+    refine ⟨hkeys, hnd, ?_, hok, hrl, hentries, hlisted, ?_⟩
+    · intro hst
+      obtain ⟨j, hj⟩ := hne
+      obtain ⟨w, hw, hk⟩ := hok j hj
+      have := runningState_not_stopped
+        ((updRunning q i s).filterMap (fun j => (q.infos.get? j).map (·.state)))
+        ⟨w.state, by simp [List.mem_filterMap]; exact ⟨j, hj, w, hw, rfl⟩, hk⟩
+      simp_all
+    · simp only [runningState_isRunning, List.mem_filterMap]
+      constructor
+      · rintro ⟨st, ⟨j, hj, hst⟩, hr⟩
+        cases hg : q.infos.get? j with
+        | none => simp [hg] at hst
+        | some w => simp [hg] at hst; exact ⟨j, hj, w, hg, hst ▸ hr⟩
+      · rintro ⟨j, hj, w, hw, hr⟩
+        exact ⟨w.state, ⟨j, hj, by simp [hw]⟩, hr⟩
+  · simp only [hlen, if_false]
+    split
+    · -- single
+      rename_i j hrun
+      obtain ⟨w, hw, hk⟩ := hok j (by simp [hrun])
+      simp only [hw, Res.holds_ok]
+      refine ⟨?_, by first | rfl | trivial, by first | rfl | trivial⟩
+      refine ⟨hkeys, hnd, ?_, hok, hrl, hentries, hlisted, ?_⟩
+      · intro hst
+        exfalso
+        simp only at hst
+        rcases hk with h | h
+        · cases hws : w.state <;> simp_all [PState.isRunning, PState.isStopped]
+        · simp_all [PState.isStopped]
+      · constructor
+        · intro hr; exact ⟨j, by simp [hrun], w, hw, hr⟩
+        · rintro ⟨j', hj', w', hw', hr⟩
+          have hjj : j' = j := by simpa [hrun] using hj'
+          subst hjj; rw [hw] at hw'; simp at hw'; exact hw' ▸ hr
+    · -- nobody listed
+      rename_i hne
+      have hnil : updRunning q i s = [] := by
+        cases h : updRunning q i s with
+        | nil => rfl
+        | cons a t =>
+          cases t with
+          | nil => exact absurd h (hne a)
+          | cons b u => simp [h] at hlen
+      have hnorun : ∀ j w, q.infos.get? j = some w → w.state.isRunning = false := by
+        intro j w hw
+        cases hr : w.state.isRunning
+        · rfl
+        · have := hrl j w hw hr; simp [hnil] at this
+      split
+      · simp only [Res.holds_ok]
+        refine ⟨?_, by first | rfl | trivial, by first | rfl | trivial⟩
+        refine ⟨hkeys, hnd, by intro _; exact hnil, hok, hrl, hentries, hlisted, ?_⟩
+        simp [hnil, PState.isRunning]
+      · cases hl : latest q.infos with
+        | none => exact absurd hl (latest_ne_none _ hne0)
+        | some w =>
+          simp only [Res.holds_ok]
+          refine ⟨?_, by first | rfl | trivial, by first | rfl | trivial⟩
+          refine ⟨hkeys, hnd, by intro _; exact hnil, hok, hrl, hentries, hlisted, ?_⟩
+          obtain ⟨k, hk⟩ := latest_mem _ _ hl
+          have := hnorun k w (Infos.get?_eq_of_mem _ _ _ hkeys hk)
+          simp [hnil, this]
+
 /-! ### every process-level operation keeps the relation -/
 
 /-- all views after one operation -/
 def stepViews (V : Nat → View) (now : Nat) (op : POp) : Nat → View := fun i => viewStep i (V i) now op
 
-/-- Inputs on which the statement is claimed (the excluded class is the known finding `C11:remove-entry-not-stopped`;
-    `upd`/`remove` without an entry are refused by `Context.check_process` before they reach the status).  The loss of an
-    instance is claimed without condition since the repair of `C11:lose-while-only-stopping`. -/
+/-- Inputs on which the statement is claimed: `upd`/`remove` without an entry are refused by `Context.check_process` before they
+    reach the status.  The loss of an instance and the removal of an entry are claimed without condition since the repairs of
+    `C11:lose-while-only-stopping` and `C11:remove-entry-not-stopped`. -/
 def OpOk (V : Nat → View) : POp → Prop
   | .upd j _ _ _ _ => (V j).last.isSome = true
-  | .remove j => ∃ s e, (V j).last = some (s, e) ∧ s.isStopped = true
+  | .remove j => (V j).last.isSome = true
   | _ => True
 
 theorem Rel.congr {p p' : Proc} {V V' : Nat → View} (h : Rel p V)
@@ -463,48 +552,72 @@ theorem pstep_rel (p : Proc) (V : Nat → View) (now : Nat) (op : POp) (hrel : R
       · simp [stepViews, viewStep, hk]
   | remove j =>
     simp only [OpOk] at hok
-    obtain ⟨s, e, hlast, hstop⟩ := hok
     have hent := hrel.entries j
-    rw [hlast] at hent
     cases hg : p.infos.get? j with
-    | none => simp [hg] at hent
+    | none => rw [hg] at hent; cases hl : (V j).last <;> simp_all
     | some w =>
-      have hws : w.state = s := by simpa [hg] using hent
-      simp only [pstep, hg, Option.isSome_some, if_true, Res.holds_ok]
-      have hjr : ¬ j ∈ p.running := by
-        intro hj
-        obtain ⟨w', hw', hk⟩ := hrel.listedOk j hj
-        rw [hg] at hw'; simp at hw'; subst hw'
-        rw [hws] at hk
-        cases s <;> simp_all [PState.isRunning, PState.isStopped]
-      have hne : ∀ k, k ∈ p.running → k ≠ j := fun k hk h => hjr (h ▸ hk)
-      refine ⟨Infos.nodup_del _ _ hrel.keys, hrel.nodup, hrel.stoppedEmpty, ?_, ?_, ?_, ?_, ?_⟩
-      · intro k hk
-        obtain ⟨w', hw', hk'⟩ := hrel.listedOk k hk
-        exact ⟨w', by simp only; rw [Infos.get?_del_other _ _ _ (hne k hk)]; exact hw', hk'⟩
-      · intro k w' hw' hr
-        simp only at hw'
+      simp only [pstep, hg, Option.isSome_some, if_true, removeIdentifier]
+      have hjne : ¬ j ∈ p.running.erase j := fun h => ((List.Nodup.mem_erase_iff hrel.nodup).mp h).1 rfl
+      have hmem : ∀ k, k ∈ p.running.erase j ↔ k ≠ j ∧ k ∈ p.running := fun k => List.Nodup.mem_erase_iff hrel.nodup
+      have hVj : (stepViews V now (.remove j) j).last = none ∧ (stepViews V now (.remove j) j).listed = false := by
+        simp [stepViews, viewStep, View.init]
+      have hVo : ∀ k, k ≠ j → stepViews V now (.remove j) k = V k := by
+        intro k hk; have : ¬ j = k := fun h => hk h.symm; simp [stepViews, viewStep, this]
+      have hentries : ∀ k, ((p.infos.del j).get? k).map (·.state) = (stepViews V now (.remove j) k).last.map (·.1) := by
+        intro k
         by_cases hkj : k = j
-        · subst hkj; rw [Infos.get?_del_same] at hw'; simp at hw'
-        · rw [Infos.get?_del_other _ _ _ hkj] at hw'; exact hrel.runListed k w' hw' hr
-      · intro k
-        simp only
+        · subst hkj; rw [Infos.get?_del_same, hVj.1]; rfl
+        · rw [Infos.get?_del_other _ _ _ hkj, hVo k hkj]; exact hrel.entries k
+      have hlisted : ∀ k, k ∈ p.running.erase j ↔ (stepViews V now (.remove j) k).listed = true := by
+        intro k
         by_cases hkj : k = j
-        · subst hkj; rw [Infos.get?_del_same]; simp [stepViews, viewStep, View.init]
-        · have : ¬ j = k := fun h => hkj h.symm
-          rw [Infos.get?_del_other _ _ _ hkj]; simp [stepViews, viewStep, this]; exact hrel.entries k
-      · intro k
-        by_cases hkj : k = j
-        · subst hkj; simp [stepViews, viewStep, View.init, hjr]
-        · have : ¬ j = k := fun h => hkj h.symm
-          simp [stepViews, viewStep, this]; exact hrel.listed k
-      · simp only
-        rw [hrel.stateRunning]
-        constructor
-        · rintro ⟨k, hk, w', hw', hr⟩
-          exact ⟨k, hk, w', by rw [Infos.get?_del_other _ _ _ (hne k hk)]; exact hw', hr⟩
-        · rintro ⟨k, hk, w', hw', hr⟩
-          exact ⟨k, hk, w', by rw [Infos.get?_del_other _ _ _ (hne k hk)] at hw'; exact hw', hr⟩
+        · subst hkj; simp [hjne, hVj.2]
+        · rw [hmem k, hVo k hkj, ← hrel.listed k]; simp [hkj]
+      split
+      · -- the last entry: a fresh status
+        rename_i hemp
+        simp only [Res.holds_ok]
+        have hnone : ∀ k, (p.infos.del j).get? k = none := by
+          intro k
+          have : p.infos.del j = [] := by simpa using hemp
+          rw [this]; rfl
+        refine ⟨by simp, by simp, by intro; rfl, by simp, ?_, ?_, ?_, ?_⟩
+        · intro k v h; simp [Infos.get?] at h
+        · intro k
+          have := hentries k; rw [hnone k] at this
+          simpa [Infos.get?] using this
+        · intro k
+          constructor
+          · intro h; simp at h
+          · intro h
+            exfalso
+            have hk := (hlisted k).mpr h
+            obtain ⟨hkj, hkr⟩ := (hmem k).mp hk
+            obtain ⟨w', hw', _⟩ := hrel.listedOk k hkr
+            have := hnone k
+            rw [Infos.get?_del_other _ _ _ hkj, hw'] at this
+            cases this
+        · simp [PState.isRunning]
+      · rename_i hemp
+        have hrunq : updRunning { p with infos := p.infos.del j, running := p.running.erase j } j .stopped = p.running.erase j := by
+          simp [updRunning, PState.isStopped, List.erase_of_not_mem hjne]
+        refine (synth_rel { p with infos := p.infos.del j, running := p.running.erase j } j .stopped
+          (stepViews V now (.remove j)) (Infos.nodup_del _ _ hrel.keys) ?_ ?_ ?_ hentries ?_ ?_).mono (fun a h => h.1)
+        · rw [hrunq]; exact hrel.nodup.erase j
+        · intro k hk
+          rw [hrunq] at hk
+          obtain ⟨hkj, hkr⟩ := (hmem k).mp hk
+          obtain ⟨w', hw', hk'⟩ := hrel.listedOk k hkr
+          exact ⟨w', by simp only; rw [Infos.get?_del_other _ _ _ hkj]; exact hw', hk'⟩
+        · intro k w' hw' hr
+          rw [hrunq]
+          simp only at hw'
+          by_cases hkj : k = j
+          · subst hkj; rw [Infos.get?_del_same] at hw'; cases hw'
+          · rw [Infos.get?_del_other _ _ _ hkj] at hw'
+            exact (hmem k).mpr ⟨hkj, hrel.runListed k w' hw' hr⟩
+        · intro k; rw [hrunq]; exact hlisted k
+        · intro h; apply hemp; simp only at h; simp [h]
   | force target s et =>
     simp only [pstep, Res.holds_ok, forceState]
     refine hrel.congr ?_ ?_ ?_ (fun k => by simp [stepViews, viewStep])
